@@ -350,7 +350,11 @@ def event_paths(fn_node, event_of, branch_event=None, cap=10, may_raise=None, bo
                 killed.add(n.id)
         if not killed:
             return nulls
-        return frozenset((v, k) for v, k in nulls if v not in killed)
+        out = set((v, k) for v, k in nulls if v not in killed)
+        if isinstance(node, ast.Assign) and len(node.targets) == 1 and isinstance(node.targets[0], ast.Name) \
+                and isinstance(node.value, ast.Constant) and node.value.value is None:
+            out.add((node.targets[0].id, "none"))
+        return frozenset(out)
 
     def clean(seq):
         return [e for e in seq if not e.startswith("?")]
